@@ -75,9 +75,7 @@ CLAIMS.update({
     'C07': _e2e('Partial-reliability scenarios: a message that was not delivered must be one the sender told the peer to skip (stream entry or cumulative point of a FORWARD-TSN / I-FORWARD-TSN); everything else is delivered.'),
     'C08': _e2e('Graceful shutdown with data still queued, one-sided and crossed, under faults: Shutdown()==nil implies all earlier writes read in order before EOF; both sides closed; late writes/OpenStream rejected and never delivered.'),
     'C09': _e2e('Close / Abort / transport read failure / write failure injected right after the k-th wire event of runs that go through handshake, transfer, stream reset and shutdown, with callers parked in Connect, Accept, Read, Write, Shutdown: everything returns, no goroutine of the package survives, no write to a closed conn, Close idempotent, ABORT cause reaches the peer.'),
-    'C10': _e2e('Direct-drive of one real Association (single-threaded): after EVERY write/gather/SACK/T3 the admission rule (cwnd, rwnd, lone probe), the advertised-window bound, MTU/fragment sizes and the loss response formulas are checked on the implementation outputs.'),
     'C14': _e2e('Stream close by the writer then by the reader, re-open of the same identifier for up to 3 incarnations, several streams at once, under loss/duplication/reordering of DATA and RECONFIG: all messages then EOF per incarnation.'),
-    'C15': _e2e('Direct-drive: per-stream buffered amount = accepted writes - newly acknowledged bytes after every op (gap-ack then cumulative ack, T3, invalid/stale SACKs), association figure = pending + in-flight, callback count = downward crossings, callback can take both locks.'),
     'C18': _e2e('API-contract programs: oversize / empty / closed-stream writes, blocking writes with deadlines, short read buffers (message stays available), read deadlines expiring with no data; rejected calls are invisible in the peer read history; blocking-write gate checked white-box.'),
 })
 
@@ -135,6 +133,51 @@ CLAIMS['C13'] = {
     'note': NOTE_COMMON,
     'technique': 'Lean 4 proof (case analysis of the checksum stage) + model/implementation differential replay',
 }
+
+SENDER_NOTE = (NOTE_COMMON + ' The L0 model Model/Sender.lean is hand-written (send / acknowledgement paths of association.go, payload_queue.go, '
+               'queue.go as a list, stream.go write half); its window tests, window updates, congestion formulas, chunk sizes and the two tests of '
+               'onBufferReleased are NOT re-typed: they are Gen.* defs the translator regenerates from those very expressions of /repo on every run '
+               '(go/extract/exprs.go), so a changed comparison or formula changes the defs the theorems are about. Tie of the remaining structure '
+               '(loop shapes, order of updates): direct-drive correspondence X-assoc - one real Association driven single-threaded under testing/synctest; '
+               'after EVERY op the model state (cwnd ssthresh rwnd in-flight/pending bytes and counts, cumulative point, next TSN, per-stream buffered amount and '
+               'callback count) and the DATA packets of every gather (lengths, TSNs, fragments) are compared with the implementation. '
+               'ORACLES (theorems quantify over all values; the harness records what the real code decided): the TLR burst budget tlrAllowSendLocked '
+               '(arbitrary state machine), which pending chunk peek() returns (the pending queue is modelled elsewhere), RACK / PTO loss marks, the number of '
+               'T3 expiries while the clock advances. Not modelled: blockWrite, SHUTDOWN cumulative ack, RTT/RACK bookkeeping, timers, goroutines.')
+
+CLAIMS.update({
+    'C10': {
+        'text': 'Lean theorems over the L0 sender model, for ALL operation lists (write / gather / SACK with arbitrary contents / T3 / clock tick / stream open+drop / '
+                'leave+re-enter established), all oracle values, every configuration with MTU < 2^30: C10_admission (each chunk a gather moves to in-flight had '
+                'in-flight bytes + len <= cwnd and len <= rwnd at that moment, or is the lone zero-window probe taken with an empty in-flight queue; the admitted '
+                'chunks are exactly those appended to the in-flight queue), C10_rwnd_invariant (rwnd + in-flight <= max(last a_rwnd, in-flight)) and '
+                'C10_rwnd_after_send (after a non-probe send in-flight <= last advertised window), C10_mtu_bound (every retransmission / new-data / fast-retransmission '
+                'packet of a gather is non-empty and marshals to <= MTU, from ANY state), C10_fragment_bound (a chunk of <= maxPayloadSizeForMTU bytes fits behind the '
+                'common header; packetize emits fragments of 1..maxPayloadSize bytes adding up to the message), C10_cwnd_floor (MTU <= cwnd), C10_loss_response '
+                '(T3: ssthresh = max(cwnd/2, 4 MTU), cwnd = max(MTU, MinCwnd); entry to fast recovery: same ssthresh formula, cwnd = max(ssthresh, MinCwnd), once), '
+                'C10_retransmit_window (T3 retransmissions of one gather carry at most min(cwnd, rwnd) user bytes, or are the single probe chunk). '
+                'Plus the executable predicate P_C10 on the implementation outputs after every op, and e2e transfer runs.',
+        'note': SENDER_NOTE + ' "Cut" is formalised as the RFC 4960 7.2.3 formula (a literal "never larger than before" is false by design below 4 MTU). Loss signals = T3 expiry and '
+                'third miss indication outside fast recovery; RACK/PTO marks do not touch cwnd in this implementation (oracle inputs). Window theorems assume the ghost flag '
+                'wrapWin is down: no uint32 wrap (< 2^32 bytes in flight, cwnd + increment < 2^32).',
+        'technique': 'Lean 4 proof (invariants + induction over op lists with oracle inputs; bv_omega/omega on translator-generated window and size arithmetic) + '
+                     'model/implementation differential replay of a direct-driven real Association',
+    },
+    'C15': {
+        'text': 'Lean theorems over the same model and quantification: C15_assoc_exact (pending + in-flight byte counters = user bytes held by the queued chunks, chunk counter exact, '
+                'acked chunks hold no bytes - unconditional), C15_stream_exact_partial (per stream BufferedAmount = user bytes of its chunks in pending + in flight), '
+                'C15_no_underflow_partial (onBufferReleased never takes its clamp branch), C15_zero_iff_idle_partial, all three under the hypothesis "a stream stays in the '
+                "association's table while it has data outstanding\" forced by known deviation D9 (C15_D9_witness / C15_underflow_witness decide the failure without it; the D9 witness "
+                'is replayed on the implementation every run), C15_rollback_exact (a write outside established restores buffered amount, SSN and both MID counters, queues nothing), '
+                'C15_sack_atomic (in-flight TSNs stay contiguous, hence a SACK that passes the validation is applied completely: the error returns after the first queue modification are unreachable), '
+                'C15_callback_crossings (callback invocations = downward crossings of the threshold in the per-operation sequence of buffered amounts; one release per stream and SACK), '
+                'C15_callback_unlocked (decided on regenerated control-flow paths of onBufferReleased: Lock, crossing test, copy handler, Unlock, call; and the Unlock/Lock around its only '
+                'call site). Plus the executable predicate P_C15 on the implementation outputs (the harness callback TryLocks the association and stream locks) and e2e runs.',
+        'note': SENDER_NOTE + ' Per-stream theorems assume the ghost flag wrapBuf is down (no uint64 wrap of bufferedAmount). C15_callback_unlocked is syntactic (lock events per path of one '
+                'function, neighbours of the call statement), the harness adds a dynamic TryLock probe; deadlock freedom in general is C20.',
+        'technique': 'Lean 4 proof (accounting invariant + induction over op lists; decide on translator-extracted lock paths) + model/implementation differential replay',
+    },
+})
 
 _PENDING = 'check not built yet in this round (planned, see DESIGN.md §5/§8); not claimed until its theorems and correspondence run'
 NOT_APPLICABLE = {p: _PENDING for p in ['C%02d' % i for i in range(1, 21)] if p not in CLAIMS}
